@@ -2409,6 +2409,9 @@ class x86_mn(x86_mn_base):
                     elif m.modifs[sd] == False:
                         mnemo_args[-1][x86_afs.size] = x86_afs.f64
                     elif m.modifs[sd] == 'fp80':
+                        if modr[x86_afs.ad] == False:
+                            log.info("80-bit x87 operands are memory only")
+                            return None
                         mnemo_args[-1][x86_afs.size] = x86_afs.f80
                     else:
                         NEVER
